@@ -270,3 +270,15 @@ Example machine_runs :
     [OFormula 0 (SNested [(2, FAtom (mkAtom 1 0 0)); (1, FAtom (mkAtom 8 0 0))]) None None None;
      ORmul 1 3 0; OAdd 2 0 1; OIadd 0 2] = Some s /\ length (heap s) = 3%nat.
 Proof. eexists. split; [vm_compute; reflexivity|reflexivity]. Qed.
+
+(* ---------------------------------------------------------------- the electron mass an ion is lighter by
+   The constant regenerated from constants.py is the recommended value of the electron mass in u.  The reference
+   (5.4857990946(22)e-4 u, CODATA 2010; the 2014 and 2018 adjustments differ from it by 4e-14) is part of the
+   trusted base; the tolerance 5e-13 u is a relative 1e-9. *)
+Definition electron_mass_reference : Q := 54857990946 # 100000000000000.
+Definition electron_mass_ok (q : Q) : bool := Qle_bool (Qabs (q - electron_mass_reference)) (5 # 10000000000000).
+Lemma electron_mass_is_reference : electron_mass_ok ME = true.
+Proof. vm_compute. reflexivity. Qed.
+(* sensitivity: the value with one digit repeated (5.48577990946e-4) is rejected *)
+Example electron_mass_typo_rejected : electron_mass_ok (548577990946 # 1000000000000000) = false.
+Proof. vm_compute. reflexivity. Qed.
